@@ -167,7 +167,21 @@ fn one_call(n: &mut Chitchat, xr: &chitchat::ChitchatId, sup: &Supplied, same_va
         })
         .collect();
     let (smax, sgc) = (sup.max(), sup.gc());
+    let live_before: Vec<chitchat::ChitchatId> = n.live_nodes().cloned().collect();
+    let watched_before: Vec<chitchat::ChitchatId> = n.live_nodes_watcher().borrow().keys().cloned().collect();
     let r = guard(|| n.reset_node_state_if_update(xr, kvs.into_iter(), smax, sgc));
+    if r.is_ok() {
+        // "never makes a member live by itself": neither the failure detector's live set nor the
+        // published live-members value may change through the call (no evaluation has run).
+        let live_after: Vec<chitchat::ChitchatId> = n.live_nodes().cloned().collect();
+        if live_after != live_before {
+            return vio("C18/made-live-at-once", format!("the catch-up call itself changed live_nodes() from {} to {} members (no liveness evaluation in between)", live_before.len(), live_after.len()));
+        }
+        let watched_after: Vec<chitchat::ChitchatId> = n.live_nodes_watcher().borrow().keys().cloned().collect();
+        if watched_after != watched_before {
+            return vio("C18/made-live-in-watch-channel", format!("the catch-up call itself changed the members listed by the live-members watch channel from {:?} to {:?}", watched_before.iter().map(|i| i.node_id.clone()).collect::<Vec<_>>(), watched_after.iter().map(|i| i.node_id.clone()).collect::<Vec<_>>()));
+        }
+    }
     if let Err(p) = r {
         return Err(Failure::new(format!("C18/{}", p.signature()), format!("existing {:?}, supplied {:?} (max {smax}, watermark {sgc}): {}", before, sup, p.describe())));
     }
